@@ -7,13 +7,14 @@ from harness import tlc
 from harness.replay import codec, colvalues as CV
 from harness.replay import wire_bind as wb
 
-INVARIANTS = ["CVTypeOK", "ExactInstant", "InexactNeighbours", "DateForms", "TimeForms", "FloatWidths", "WideInts", "Headers"]
+INVARIANTS = ["CVTypeOK", "CallsIndependent", "ExactInstant", "InexactNeighbours", "DateForms", "TimeForms", "FloatWidths", "WideInts", "Headers"]
 WITNESSES = {
     "scalar": ["Witness_SummerTime", "Witness_SameWallTwoOffsets", "Witness_NegativeOffset", "Witness_MsProne", "Witness_Pre1970Inexact",
                "Witness_YearOne", "Witness_Year9999", "Witness_OutsideOpen", "Witness_WideVarint"],
+    "calls": ["Witness_WinterThenSummer", "Witness_RepeatedHour"],
     "tuple": ["Witness_TupleNull"], "udt": ["Witness_Udt"], "nest": ["Witness_Nested"], "set": ["Witness_SetOfDates"],
 }
-FAMILIES = ["scalar", "list", "set", "map", "tuple", "udt", "nest"]
+FAMILIES = ["scalar", "calls", "list", "set", "map", "tuple", "udt", "nest"]
 JVM = {"JAVA_TOOL_OPTIONS": "-XX:TieredStopAtLevel=1 -XX:ParallelGCThreads=2 -Xms1g"}
 
 
@@ -52,6 +53,8 @@ def enumerate_cases(ctx, families, rich, label, timeout=3000):
 
 
 def family_of(t):
+    if CV.is_calls(t):
+        return "calls"
     if codec.is_scalar(t):
         return "scalar"
     return "nest" if codec.depth(t) > 1 and t[0] != "udt" else t[0]
